@@ -503,11 +503,58 @@ func lateFirstFamily() []*annot.Input {
 	return out
 }
 
+// zeroCoordFamily: a child moved to latitude 0 and/or longitude 0 (exactly (0,0), the equator, the
+// prime meridian) after the parent version and moved again later; also a child that STARTS there.
+// Zero is an ordinary coordinate: every observed state must carry the location of the version current
+// at that time.  Ways and relations, both regimes.
+func zeroCoordFamily() []*annot.Input {
+	var out []*annot.Input
+	for _, commit := range []bool{true, false} {
+		for _, isRel := range []bool{false, true} {
+			for variant := 0; variant < 4; variant++ {
+				base, regime := osm.CommitInfoStart.Add(400*24*time.Hour), "commit"
+				if !commit {
+					base, regime = osm.CommitInfoStart.Add(-1000*24*time.Hour), "old"
+				}
+				at := func(h int) (time.Time, *time.Time) {
+					t := base.Add(time.Duration(h) * time.Hour)
+					if commit {
+						c := t
+						return t, &c
+					}
+					return t, nil
+				}
+				in := &annot.Input{IsRel: isRel, Threshold: 30 * time.Minute, Regime: regime}
+				a, b := osm.NodeID(1).FeatureID(), osm.NodeID(2).FeatureID()
+				mkv := func(v, h int, lat, lon float64) annot.Hver {
+					ts, com := at(h)
+					return annot.Hver{Version: v, Changeset: int64(10 + v), Timestamp: ts, Committed: com, Lat: lat, Lon: lon, Visible: true}
+				}
+				z := [][2]float64{{0, 0}, {0, 33}, {44, 0}, {0, 0}}[variant]
+				first := [2]float64{5, 6}
+				if variant == 3 {
+					first, z = [2]float64{0, 0}, [2]float64{8, 9}
+				}
+				in.Hists = []annot.Hist{
+					{FID: a, Versions: []annot.Hver{mkv(1, 1, first[0], first[1]), mkv(2, 15, z[0], z[1]), mkv(3, 25, 7, 7), mkv(4, 50, 0, 0)}},
+					{FID: b, Versions: []annot.Hver{mkv(1, 2, 1, 1), mkv(2, 20, 0, 0)}}}
+				pts, pcom := at(10)
+				p2ts, p2com := at(40)
+				in.Parents = []annot.Parent{
+					{Changeset: 100, Visible: true, Timestamp: pts, Committed: pcom, Refs: []annot.Ref{{FID: a}, {FID: b}, {FID: a}}},
+					{Changeset: 101, Visible: true, Timestamp: p2ts, Committed: p2com, Refs: []annot.Ref{{FID: b}, {FID: a}}}}
+				out = append(out, in)
+			}
+		}
+	}
+	return out
+}
+
 func main() {
 	a := wire.ParseArgs()
 	rng := wire.Rng(a.Seed)
 	w := wire.NewWriter("C11", a.Seed, a.Tier)
-	w.Rule = "edit histories: 1-5 parent versions, 1-6 children (repeats, entering, leaving), up to 8 versions per child placed before/between/after/in the same second as parent versions, deletions and undeletions, regimes commit / old / nocommit / mixed, thresholds 0,1s,30min,10000h,random; families: late_first (a child whose first version appears 1ns / half a threshold / threshold-1ns / threshold / threshold+1ns AFTER the parent version referencing it, in the parent's changeset or another one, thresholds default / 1s / 2h / 0, both regimes, mostly under IgnoreInconsistency), undelete (a child deleted before / at the parent version and undeleted later, with and without IgnoreInconsistency), errors (4 ignore-option combinations x {never listed, not found, empty, all deleted, deleted at the parent's time, lookup failing with another error}), slow_datasource (context-honouring lookups with one ignorable missing child), late_parent (first k parent versions annotated alone, then all together with the first k already annotated), old data with a populated committed attribute, location-only references under a filter, versions dated in the year 2100; plus a boundary family (child versions stamped exactly at a parent's stamp, at the next parent's stamp minus the threshold, +-1ns, +-threshold), child filters with pre-annotated references, ignore options, missing or failing histories; half of the histories are consistent (success expected). For every visible parent of a successful annotation ApplyUpdatesUpTo(t) is observed at up to 8 (quick) / 16 (thorough) times drawn from all event times, +-1ns, +-threshold (window times first). Non-trivial = error outcome or at least one update; distinct = distinct token streams."
+	w.Rule = "edit histories: 1-5 parent versions, 1-6 children (repeats, entering, leaving), up to 8 versions per child placed before/between/after/in the same second as parent versions, deletions and undeletions, regimes commit / old / nocommit / mixed, thresholds 0,1s,30min,10000h,random; families: zero_coordinate (a child moved to (0,0) / latitude 0 / longitude 0 after the parent and moved again, or starting at (0,0); random histories also put a fifth of the coordinates on 0), late_first (a child whose first version appears 1ns / half a threshold / threshold-1ns / threshold / threshold+1ns AFTER the parent version referencing it, in the parent's changeset or another one, thresholds default / 1s / 2h / 0, both regimes, mostly under IgnoreInconsistency), undelete (a child deleted before / at the parent version and undeleted later, with and without IgnoreInconsistency), errors (4 ignore-option combinations x {never listed, not found, empty, all deleted, deleted at the parent's time, lookup failing with another error}), slow_datasource (context-honouring lookups with one ignorable missing child), late_parent (first k parent versions annotated alone, then all together with the first k already annotated), old data with a populated committed attribute, location-only references under a filter, versions dated in the year 2100; plus a boundary family (child versions stamped exactly at a parent's stamp, at the next parent's stamp minus the threshold, +-1ns, +-threshold), child filters with pre-annotated references, ignore options, missing or failing histories; half of the histories are consistent (success expected). For every visible parent of a successful annotation ApplyUpdatesUpTo(t) is observed at up to 8 (quick) / 16 (thorough) times drawn from all event times, +-1ns, +-threshold (window times first). Non-trivial = error outcome or at least one update; distinct = distinct token streams."
 	n, ntimes := 200, 8
 	if a.Tier == "thorough" {
 		n, ntimes = 6000, 16
@@ -531,6 +578,10 @@ func main() {
 			c, _, _ := mainCase(w, rng, in, ntimes, "errors")
 			w.Add(c)
 		}
+	}
+	for _, in := range zeroCoordFamily() {
+		c, _, _ := mainCase(w, rng, in, 2*ntimes, "zero_coordinate")
+		w.Add(c)
 	}
 	for _, in := range lateFirstFamily() {
 		c, _, _ := mainCase(w, rng, in, ntimes, "late_first")
